@@ -368,6 +368,109 @@ def oracle_gather_cell(ops, impl):
     return bad
 
 
+
+# ---------------------------------------------------------------------------------------------------------
+# gather_file: the real ref_gather_by_extension (.meshb) on a distributed tri+tet mesh
+# ---------------------------------------------------------------------------------------------------------
+def gen_gather_file(rng, tier, np):
+    ops = []
+    n = 40 if tier == 'quick' else 250
+    for _ in range(n):
+        N = rng.randint(4, 16)
+        part = _partition(rng, N, np)
+        pay = [_payload(rng, False) for _ in range(N)]
+        tris = [(rng.sample(range(N), 3), rng.choice([1, 2, 3, 9])) for _ in range(rng.choice([0, 1, 3, 6, 10]))]
+        tets = [(rng.sample(range(N), 4), 0) for _ in range(rng.choice([0, 1, 3, 6, 10]))]
+        tris = list({tuple(c): (c, cid) for c, cid in tris}.values())      # distinct cells (the oracle counts sets)
+        tets = list({tuple(c): (c, cid) for c, cid in tets}.values())
+        world = []
+        for q in range(np):
+            mt = [c for c in tris if any(part[g] == q for g in c[0])]
+            mq = [c for c in tets if any(part[g] == q for g in c[0])]
+            rng.shuffle(mt)
+            rng.shuffle(mq)
+            nodes = sorted({g for c in mt + mq for g in c[0]} | {g for g in range(N) if part[g] == q})
+            rng.shuffle(nodes)
+            world.append((nodes, mt, mq))
+        if rng.random() < 0.1 and N > 0:                       # a vertex nobody owns: the failure branch
+            g = rng.randrange(N)
+            world = [([x for x in nodes if x != g] if part[g] == q else nodes, mt, mq)
+                     for q, (nodes, mt, mq) in enumerate(world)]
+            world = [(nodes, [c for c in mt if g not in c[0] or g in nodes], [c for c in mq if g not in c[0] or g in nodes])
+                     for (nodes, mt, mq) in world]
+        r = rng.random()
+        rbl = 32 * rng.randint(1, N + 1) if r < 0.7 else rng.choice([0, -1, 1000000, 33, 32])
+        w = ['gather_file', str(np), str(rbl), str(N)]
+        for nodes, mt, mq in world:
+            w += ['|', str(len(nodes))]
+            for g in nodes:
+                w += [str(g), str(part[g])] + [dhex(x) for x in pay[g]]
+            w.append(str(len(mt)))
+            for c, cid in mt:
+                w += [str(g) for g in c] + [str(cid)]
+            w.append(str(len(mq)))
+            for c, cid in mq:
+                w += [str(g) for g in c] + [str(cid)]
+        ops.append(' '.join(w))
+    return ops
+
+
+def oracle_gather_file(ops, impl):
+    """the file holds every vertex once, in global order, with its owner's coordinates, and every cell once"""
+    bad = []
+    for i, (o, r) in enumerate(zip(ops, impl)):
+        out = r.split()
+        if not out or out[0] != 'ok':
+            continue
+        w = o.split()
+        np, N = int(w[1]), int(w[3])
+        groups, cur = [], None
+        for t in w[4:]:
+            if t == '|':
+                cur = []
+                groups.append(cur)
+            else:
+                cur.append(t)
+        own, tris, tets = {}, {}, {}
+        for q, g in enumerate(groups):
+            k = int(g[0])
+            for j in range(k):
+                if int(g[2 + 5 * j]) == q:
+                    own.setdefault(int(g[1 + 5 * j]), []).append([hexd(x) for x in g[3 + 5 * j:6 + 5 * j]])
+            a = 1 + 5 * k
+            ct = int(g[a])
+            for j in range(ct):
+                rec = tuple(int(x) for x in g[a + 1 + 4 * j:a + 5 + 4 * j])
+                tris[rec] = 1
+            b = a + 1 + 4 * ct
+            cq = int(g[b])
+            for j in range(cq):
+                rec = tuple(int(x) for x in g[b + 1 + 5 * j:b + 5 + 5 * j])
+                tets[rec] = 1
+        if any(len(own.get(g, [])) != 1 for g in range(N)):
+            bad.append((i, 'C04 gather to a file succeeded although some vertex is not owned exactly once'))
+            continue
+        if int(out[1]) != N:
+            bad.append((i, 'file has %s vertices, mesh has %d' % (out[1], N)))
+            continue
+        vals = [hexd(x) for x in out[2:2 + 3 * N]]
+        if vals != [x for g in range(N) for x in own[g][0]]:
+            bad.append((i, 'C07 vertices in the file are not the owners\' coordinates in global order (np=%d)' % np))
+            continue
+        k = 2 + 3 * N
+        nt = int(out[k])
+        got_t = sorted(tuple(int(x) - (1 if j % 4 < 3 else 0) for j, x in enumerate(out[k + 1:k + 1 + 4 * nt]))[4 * m:4 * m + 4]
+                       for m in range(nt))
+        k += 1 + 4 * nt
+        nq = int(out[k])
+        got_q = sorted(tuple(int(x) - 1 for x in out[k + 1 + 5 * m:k + 5 + 5 * m]) for m in range(nq))
+        if got_t != sorted(tris):
+            bad.append((i, 'C04 triangles in the file differ from the global mesh (np=%d): %d vs %d' % (np, len(got_t), len(tris))))
+        elif got_q != sorted(tets):
+            bad.append((i, 'C04 tets in the file differ from the global mesh (np=%d): %d vs %d' % (np, len(got_q), len(tets))))
+    return bad
+
+
 def _nontrivial(op, out):
     return not out.startswith('bad-op')
 
@@ -385,7 +488,8 @@ def _mpi(name, gen, oracle):
 
 GATHER_NODE = _mpi('par_gather_node', gen_gather_node, oracle_gather_node)
 GATHER_CELL = _mpi('par_gather_cell', gen_gather_cell, oracle_gather_cell)
-STREAMS = [GUARDS, GATHER_NODE, GATHER_CELL]
+GATHER_FILE = _mpi('par_gather_file', gen_gather_file, oracle_gather_file)
+STREAMS = [GUARDS, GATHER_NODE, GATHER_CELL, GATHER_FILE]
 
 
 # ---------------------------------------------------------------------------------------------------------
@@ -400,7 +504,7 @@ from . import cli  # noqa: E402
 
 def gen_adapt_all_np(rng, tier, np):
     ops = []
-    for op in cli.gen_adapt(rng, tier, np, scale=0.34 if tier == 'quick' else 0.5):
+    for op in cli.gen_adapt(rng, tier, np, scale=0.5):
         r = rng.random()
         if r < 0.3:
             op += ' part=5'
